@@ -183,3 +183,29 @@ _extend("C19", "taint rule: no comparison of matrix data with a non-zero absolut
 _extend("C20", "mapped-index rule on the row/column-given flags of _vnacal_new_add_common",
         "Also decides that the row/column-given flags that select which equations exist are indexed in the full port grid (mapped index, not the raw counter of an abbreviated matrix).")
 _extend("C17", "mapped-index rule", "Also decides that full-grid flag arrays are indexed by the mapped index wherever one is in scope.")
+
+_extend("C03", "destructor-completeness, field-overwrite, half-built-object, dangling-field and assert-establish rules over structure fields",
+        "Also decides, for structure fields: every member that receives an owned allocation is released in the call closure of its structure's destructor; no path "
+        "overwrites a field that still holds a fresh allocation; a constructor stores a count only after its vector is allocated and checked and before the elements; "
+        "a field whose object was released is reassigned before return; an establisher's failure is not discarded in front of a callee that asserts what it establishes; "
+        "the port-map validation guards cover every map entry.")
+_extend("C12", "half-built-object, field-overwrite and assert-establish rules",
+        "Also decides the half-built-object contract of count/vector constructors (no NULL walk, no leak of elements in their destructor) and that a failed establisher "
+        "is not ignored in front of the callee asserting its result.")
+_extend("C09", "half-built-object rule", "Also decides the count/vector constructor contract on the loader's allocation-failure paths.")
+_extend("C11", "dangling-field rule", "Also decides that no function returns with an object field still pointing at an object it released (a retried call frees it twice).")
+_extend("C20", "count-space agreement and refusal-class rules; dangling-field rule",
+        "Also decides that the count test compares like with like (all systems vs one system), that every equation-count refusal is a VNAERR_MATH report, and that "
+        "vn_calibration never dangles after a failed solve.")
+_extend("C16", "destructor-completeness rule", "Also decides that vnacal_free releases every calibration slot it owns.")
+_extend("C13", "wrapper-verb agreement and vacated-slot rules",
+        "Also decides that each vnacal_property_<verb> wrapper forwards to vnaproperty_v<verb> only and that list_delete clears the slot it vacates (the sparse-extend path relies on it).")
+_extend("C10", "range-intersection rule", "Also decides that like ends of two ranges are combined as an intersection (lower ends by maximum, upper ends by minimum).")
+_extend("C04", "no-allocation / no-data-dependent-return rule for the void conversions",
+        "Also decides that no vnaconv_* conversion allocates from the heap or returns before writing its output (other than for a non-positive dimension).")
+_extend("C05", "in-place alias analysis of the conversions the dispatcher calls",
+        "Also decides (with the C04 alias rule) that every conversion the table can dispatch to is safe when vnadata_convert passes the same matrix as input and output.")
+_extend("C19", "no data-dependent early return in the LU/QR kernels", "Also decides that no kernel returns before writing its result depending on the matrix data.")
+_extend("C18", "system-scope rule for the vs_* iterator accessors", "Also decides that per-system iterator state (vs_have_v, ...) is read only where a vs_start_system of the same function dominates.")
+_extend("C08", "header-order independence of the NPD header handlers", "Also decides that no NPD header-line handler depends on a value set by another header line without testing it for unset.")
+_extend("C01", "sorted-map and hash-chain-order rules", "Also decides that abbreviated measurement matrices are placed through a sorted copy of the port map and that the parameter hash keeps the chain order its look-ups rely on (identity of the zero parameter).")
